@@ -70,9 +70,12 @@ W1 == 1
 W2 == 2
 W3 == 3
 Pending == Cardinality({m \in Msgs : m < nextSub /\ outcome[m] = "none"})
+\* no partition worker is blocked handing something to a broker worker (it sits at a hook or waits for input): an answer
+\* released now cannot compete with an offer inside a worker's select
+NoOfferPending == \A p \in Parts : IF pp[p].todo = <<>> THEN TRUE ELSE Head(pp[p].todo)[1] = "flush"
 ConductNext == IF EagerEnabled THEN EagerStep /\ UNCHANGED hist
                ELSE \/ (Pending < SubmitWindow /\ LSubmit)
-                    \/ \E i \in BpIds : FirstOnConnection(i) /\ LBrokerHandle(i)
+                    \/ \E i \in BpIds : FirstOnConnection(i) /\ NoOfferPending /\ LBrokerHandle(i)
                     \/ LLeaderMove
                     \/ (HookStep /\ UNCHANGED hist)
 ConductSpec == Init /\ [][ConductNext]_vars
